@@ -108,4 +108,18 @@ theorem verify_pass_iff (cfg : Cfg) (hb : cfg.mode = .build) (a : FS) (src : Pat
         simp [this]
     · simp
     · simp
+/-- where the executable side condition answers `true`: verify passes iff the output is up to date -/
+theorem verify_iff_where_checked (cfg : Cfg) (hb : cfg.mode = .build) (a : FS) (src : Path) (first : Bool)
+    (hs : srcSafeB cfg a src = some true) :
+    ∃ o, outputPath src = some o ∧
+      ((runPass cfg.toVerify a src first).1 = .ok ↔
+        ((runPass cfg a src first).1 = .ok ∧ (runPass cfg a src first).2.file? o = a.file? o)) := by
+  obtain ⟨content, o, bs, hfile, hout, hbs, _, hsafe, hprobes⟩ := srcSafeB_spec cfg a src hs
+  obtain ⟨hnd, hnot⟩ := srcSafeB_output cfg a src hs o hout
+  have hnot' := hnot content bs hfile hbs
+  rw [hb] at hbs
+  exact ⟨o, hout, verify_pass_iff cfg hb a src first content o bs hfile hout hnd hbs
+    (Safe.mono cfg a _ bs _ _ (singleton_sub_generated cfg a _ o bs) hsafe)
+    (ProbesOK.mono cfg a _ bs _ _ (singleton_sub_generated cfg a _ o bs) hprobes) hnot'⟩
+
 end Txt
